@@ -48,8 +48,14 @@ def scenario(name: str, umsize: int, alloc: List[int], reqs: List[Dict[str, Any]
         arrs.append({"a": aa, "v": args})
         arrs.append({"a": ra, "v": [U] * (10 * rq["n"])})
     prog = []
+    progs = []
     for b in body:
-        if b[0] == "req":
+        if b[0] == "sub":                 # the subroutine ends here; the next one runs on the state it leaves
+            progs.append(prog)
+            prog = []
+        elif b[0] == "nop":
+            prog.append(I("set", Cb(15), 7))
+        elif b[0] == "req":
             i = b[1]
             base = 5 * i
             if reqs[i]["role"] == "create":
@@ -64,9 +70,13 @@ def scenario(name: str, umsize: int, alloc: List[int], reqs: List[Dict[str, Any]
             prog.append(I("qfree", qreg(b[1])))
         elif b[0] == "qalloc":
             prog.append(I("qalloc", qreg(b[1])))
-    return {"name": name, "umsize": umsize, "alloc": alloc, "regs": regs, "arrs": arrs, "prog": prog,
-            "remote": [dict(remote=s["remote"], purpose=s["sock"], type=s["type"], n=s["n"]) for s in remote],
-            "fix": fix, "reqs": reqs}
+    out = {"name": name, "umsize": umsize, "alloc": alloc, "regs": regs, "arrs": arrs, "prog": prog,
+           "remote": [dict(remote=s["remote"], purpose=s["sock"], type=s["type"], n=s["n"]) for s in remote],
+           "fix": fix, "reqs": reqs}
+    if progs:
+        out["progs"] = progs + [prog]
+        out["prog"] = progs[0]
+    return out
 
 
 def K(role, remote, sock, n, virt):
@@ -104,6 +114,12 @@ def scenarios(tier: str, fix: str = "") -> List[Dict[str, Any]]:
                       [("req", 0), ("req", 1), ("wait", 0), ("wait", 1)], fix))
     S.append(scenario("wait-per-pair", 2, [], [K("create", 1, 0, 2, [0, 1])], [],
                       [("req", 0), ("wait", 0, 0, 1), ("qfree", 0), ("wait", 0, 1, 2)], fix))
+    # two subroutines of one application: responses may arrive (and have to be kept) while an earlier subroutine
+    # runs and finishes, before the subroutine that receives them has started
+    S.append(scenario("recv-keep-in-second-subroutine-early", 2, [], [K("recv", 1, 0, 2, [0, 1])], [dict(remote=1, sock=0, type="K", n=2)],
+                      [("nop",), ("nop",), ("sub",), ("req", 0), ("wait", 0)], fix))
+    S.append(scenario("recv-measure-in-second-subroutine-early", 1, [], [M("recv", 1, 1, 1), M("create", 1, 0, 1)],
+                      [dict(remote=1, sock=1, type="M", n=1)], [("req", 1), ("wait", 1), ("sub",), ("req", 0), ("wait", 0)], fix))
     if tier == "thorough":
         S.append(scenario("three-requests-3-2-1", 3, [], [K("create", 1, 0, 3, [0, 1, 2]), M("create", 1, 1, 2), M("recv", 1, 0, 1)],
                           [dict(remote=1, sock=0, type="M", n=1)],
